@@ -203,6 +203,9 @@ func exSpell(r *rng, from, to string, tokens []string) string {
 		if frag != "" && (r == nil || !r.chance(1, 8)) {
 			return frag
 		}
+		if frag == "" && r != nil && r.chance(1, 2) {
+			return "#" // the whole current document (the recursive idiom of a document that is a schema)
+		}
 		return path.Base(tu.Path) + frag // the document names itself
 	}
 	if fu.Scheme != tu.Scheme || fu.Host != tu.Host {
@@ -466,6 +469,10 @@ func exRandomGraph(r *rng, o exGenOpts) *exGraph {
 			}
 		}
 		d.tree = g.tree(d.doc, d.rank, 2)
+		if len(d.base) == 0 && r.chance(1, 2) {
+			// a document that is a schema refers to itself as a whole: the recursive idiom "$ref": "#"
+			exPlace(d.tree, r.pick([]string{"properties", "items", "additionalProperties", "allOf"}), "self", map[string]interface{}{"$ref": "#"})
+		}
 		d.nested = exNested(d.tree)
 	}
 	// shared parameters, responses, path items: reference chains go to higher rank, so they end
@@ -1588,6 +1595,24 @@ func exElementCases(g *exGraph) []exElementCase {
 
 var exEntries = []string{"with_root_typed", "with_root_generic", "base_path"}
 
+// exUnionsGraph: one document whose schemas hold `items`, `additionalProperties` and `additionalItems` in each of their forms.
+func exUnionsGraph() *exGraph {
+	return exFromGeneric(map[string]interface{}{"file:///u/root.json": map[string]interface{}{"swagger": "2.0", "info": map[string]interface{}{"title": "u", "version": "1"},
+		"paths": map[string]interface{}{},
+		"definitions": map[string]interface{}{
+			"tuple":  map[string]interface{}{"type": "array", "items": []interface{}{map[string]interface{}{"type": "string"}, map[string]interface{}{"type": "integer"}}, "additionalItems": false},
+			"list":   map[string]interface{}{"type": "array", "items": map[string]interface{}{"type": "string"}, "additionalItems": map[string]interface{}{"type": "number"}},
+			"closed": map[string]interface{}{"type": "object", "additionalProperties": false},
+			"open":   map[string]interface{}{"type": "object", "additionalProperties": true},
+			"typed":  map[string]interface{}{"type": "object", "additionalProperties": map[string]interface{}{"type": "string"}, "not": map[string]interface{}{"type": "null"}},
+			"plain":  map[string]interface{}{"type": "object"},
+		}}}, "file:///u/root.json")
+}
+
+var exUnionRefs = []string{"#/definitions/tuple/items", "#/definitions/tuple/items/0", "#/definitions/tuple/additionalItems", "#/definitions/list/items",
+	"#/definitions/list/additionalItems", "#/definitions/closed/additionalProperties", "#/definitions/open/additionalProperties",
+	"#/definitions/typed/additionalProperties", "#/definitions/typed/not", "#/definitions/plain/not", "#/definitions/plain/items", "#/definitions/plain/additionalProperties"}
+
 func genExpandCases(r *rng, n int, tier string, cw *caseWriter) {
 	exQuiet()
 	graphs := exGraphs(r.fork(1), n, tier, true)
@@ -1600,6 +1625,27 @@ func genExpandCases(r *rng, n int, tier string, cw *caseWriter) {
 		}
 		cw.emit(m)
 		cw.count(fmt.Sprint(m[0].V))
+	}
+	// 0. pointers that end at the members a typed schema holds as unions (schema-or-array, schema-or-bool) in each of their
+	//    forms, and at members that are absent: every way of supplying the root, both resolvers
+	{
+		g := exUnionsGraph()
+		for _, ref := range exUnionRefs {
+			for _, mode := range []string{"typed", "generic", "none"} {
+				c := g.call("resolve", exOpts{})
+				c.Kind, c.Ref, c.RootMode = "Schema", ref, mode
+				view, _ := exGoView(g, c, exRun(c), false)
+				emit(orderedMap{{"op", "resolve"}, {"nt", true}, {"kind", "Schema"}, {"docs", g.Docs}, {"root", g.Root}, {"ref", ref}, {"root_mode", mode},
+					{"missing", []string{}}, {"expect", "union-position"}, {"go", view}})
+				if mode != "none" {
+					c2 := g.call("resolve_ref", exOpts{})
+					c2.Ref, c2.RootMode = ref, mode
+					view2, _ := exGoView(g, c2, exRun(c2), false)
+					emit(orderedMap{{"op", "resolve_ref"}, {"nt", true}, {"kind", "Schema"}, {"docs", g.Docs}, {"root", g.Root}, {"ref", ref}, {"root_mode", mode},
+						{"missing", []string{}}, {"expect", "union-position"}, {"go", view2}})
+				}
+			}
+		}
 	}
 	for gi, g0 := range graphs {
 		g := g0
